@@ -163,6 +163,8 @@ structure St where
   dq : List Entry := []
   /-- newest first -/
   log : List LogEntry := []
+  /-- the number of observations so far (`log.length`, kept as a counter: histories get long) -/
+  nobs : Nat := 0
   /-- (ghost) the number of polls so far that made no observation: a task that was deferred by the cooperative
   budget at an await that cannot complete registers there when it is polled again -/
   silent : Nat := 0
@@ -250,7 +252,8 @@ def setProg (s : St) (i : Nat) (p : List Instr) : St :=
   | none => s
   | some tk => { s with tasks := s.tasks.set i { tk with prog := p } }
 
-def logAt (s : St) (i rdy : Nat) (org : Phase) : St := { s with log := ⟨s.now, i, rdy, org⟩ :: s.log }
+def logAt (s : St) (i rdy : Nat) (org : Phase) : St :=
+  { s with log := ⟨s.now, i, rdy, org⟩ :: s.log, nobs := s.nobs + 1 }
 
 /-- `TimerQueue::add`: behind every timer whose deadline is not later -/
 def insertTimer (tm : Timer) : List Timer → List Timer
@@ -394,7 +397,7 @@ def pop (P : Params) (q : Kind) (s : St) : Option (Entry × St) :=
 
 /-- (ghost) count a poll that added nothing to the log -/
 def noteSilent (before r : St) : St :=
-  if r.log.length = before.log.length then { r with silent := r.silent + 1 } else r
+  if r.nobs = before.nobs then { r with silent := r.silent + 1 } else r
 
 /-- pop the next task of queue `q` and poll it -/
 def step (P : Params) (q : Kind) (s : St) : St :=
